@@ -47,7 +47,7 @@ Definition check3r (a b c : token_type) : bool := check_r [a; b; c].
 
 Lemma triples_r_true :
   forallb (fun a => forallb (fun b => forallb (fun c => check3r a b c) all_token_type) all_token_type) all_token_type = true.
-Proof. vm_compute. reflexivity. Qed.
+Proof. vm_cast_no_check (@eq_refl bool true). Qed.
 
 Lemma triples_check_r : forall a b c, check_r [a; b; c] = true.
 Proof.
@@ -57,12 +57,18 @@ Proof.
 Qed.
 
 Definition reduced_r (n : nat) : bool := forallb check_r (seqs reduced_alphabet n).
-Lemma reduced_r_0 : reduced_r 0 = true. Proof. vm_compute. reflexivity. Qed.
-Lemma reduced_r_1 : reduced_r 1 = true. Proof. vm_compute. reflexivity. Qed.
-Lemma reduced_r_2 : reduced_r 2 = true. Proof. vm_compute. reflexivity. Qed.
-Lemma reduced_r_3 : reduced_r 3 = true. Proof. vm_compute. reflexivity. Qed.
-Lemma reduced_r_4 : reduced_r 4 = true. Proof. vm_compute. reflexivity. Qed.
-Lemma reduced_r_5 : reduced_r 5 = true. Proof. vm_compute. reflexivity. Qed.
+Lemma reduced_r_0 : reduced_r 0 = true.
+Proof. vm_cast_no_check (@eq_refl bool true). Qed.
+Lemma reduced_r_1 : reduced_r 1 = true.
+Proof. vm_cast_no_check (@eq_refl bool true). Qed.
+Lemma reduced_r_2 : reduced_r 2 = true.
+Proof. vm_cast_no_check (@eq_refl bool true). Qed.
+Lemma reduced_r_3 : reduced_r 3 = true.
+Proof. vm_cast_no_check (@eq_refl bool true). Qed.
+Lemma reduced_r_4 : reduced_r 4 = true.
+Proof. vm_cast_no_check (@eq_refl bool true). Qed.
+Lemma reduced_r_5 : reduced_r 5 = true.
+Proof. vm_cast_no_check (@eq_refl bool true). Qed.
 
 Lemma reduced_r_spec : forall n toks, reduced_r n = true -> length toks = n ->
   (forall x, In x toks -> In x reduced_alphabet) -> check_r toks = true.
